@@ -898,7 +898,9 @@ class Contravariant(MappingApplication):
 
         M = Jacobian(F)
         M = M/M.det()
-        v = Matrix(v)
+        if not isinstance(v, (ImmutableDenseMatrix, Matrix)):
+            # a column, whatever the entries are (Matrix(list) inspects them: dx1(u) was taken for a row)
+            v = Matrix([[a] for a in v])
         v = M*v
         return Tuple(*v)
 
